@@ -568,6 +568,30 @@ theorem splitAux_pair (eq k v : Str) (hs : eq ≠ []) (hk : Clean eq k) :
   rw [List.append_assoc, splitAux_clean_append eq _ k _ hs hk, splitAux_at_sep eq _ _ hs rfl]
   simp [decLim, splitAux_lim_zero, prependHead]
 
+/-- joining clean items with a clean separator gives a clean text -/
+theorem clean_join (sep ds : Str) (l : List Str) (hl : ∀ it ∈ l, Clean sep it) (hds : Clean sep ds) :
+    Clean sep (join ds l) := by
+  intro c hc
+  rcases mem_join ds l c hc with h | ⟨it, hit, h⟩
+  · exact hds c h
+  · exact hl it hit c h
+
+/-- the joined text of a non-empty list is empty exactly for the list `['']` -/
+theorem join_eq_nil_iff (ds : Str) (hds : ds ≠ []) (l : List Str) (hl : l ≠ []) :
+    join ds l = [] ↔ l = [[]] := by
+  cases l with
+  | nil => exact absurd rfl hl
+  | cons x t =>
+    cases t with
+    | nil => simp [join]
+    | cons y t' =>
+      simp only [join]
+      constructor
+      · intro h
+        have := (List.append_eq_nil_iff.mp h).1
+        exact absurd (List.append_eq_nil_iff.mp this).2 hds
+      · intro h; cases h
+
 /-! ### escape / unescape -/
 
 def isLowerHex (c : Char) : Bool := ('0' ≤ c && c ≤ '9') || ('a' ≤ c && c ≤ 'f')
